@@ -1485,7 +1485,9 @@ func racePass(c *engine.Check) {
 		return
 	}
 	iters := engine.Pick(c, "200", "2000")
-	run := exec.Command(bin, "-test.run", "TestRace", "-test.count", "1")
+	// bounded: a change that makes callers wait for ever must not hang the check (the exhaustive part judges
+	// liveness; this pass only looks for race reports)
+	run := exec.Command(bin, "-test.run", "TestRace", "-test.count", "1", "-test.timeout", engine.Pick(c, "240s", "900s"))
 	run.Env = append(os.Environ(), "C13_RACE_ITERS="+iters)
 	out, err := run.CombinedOutput()
 	s := string(out)
@@ -1497,6 +1499,8 @@ func racePass(c *engine.Check) {
 			j = len(s)
 		}
 		c.Record("race", engine.Bad("race-free", "race", "C13/data-race/remoteKeySet", s[i:j]), func() any { return map[string]any{"free_running": true, "iterations": iters} })
+	} else if err != nil && strings.Contains(s, "test timed out") {
+		c.Extra("race_pass_unfinished", "the free-running pass did not finish within its time limit (callers still waiting): no verdict from this pass; liveness is judged by the schedule exploration")
 	} else if err != nil {
 		c.Internal("race pass failed without a race report: " + s)
 	} else {
